@@ -395,6 +395,7 @@ class Gen:
         self.files = {}
         self.report = dict(unit=unit, functions=[], items=[], rules_applied={}, dropped=[])
         self.ledger = []    # obligations: dict(fn, label, kind, props, text)
+        self.specs = {}     # contracts by function name (used by tools/audit_stubs.py)
         self.default_stubs = {}
 
     def src(self, rel):
@@ -587,6 +588,7 @@ class Gen:
         eds = self.rule_edits(rel, it['start'], it['end'], spec['rules_off'], spec['stubs'])
         bo, bc = it['body_open'], it['body_close']
         props = spec['props']
+        self.specs[spec.get('rename') or fnname] = dict(unit=self.unit, file=rel, selector=sel, ret=spec['ret'], sig=[ln for ln, _ in spec['sig']], closure=closure_mode)
         ann_id = [0]
         if spec.get('rename') and not closure_mode:
             nm = re.compile(r'\bfn\s+(\w+)').search(mask, it['start'], it['name_end'])
